@@ -37,7 +37,7 @@ def run(ctx):
         gens.append(to_cases(take(h, 700 if q else 30000, ctx.seed), c, "replay_%s" % ("enc" if sec else "none")))
         c = dict(hist, Secure=sec, NSlots=2, NConns=2, Acts=ALL_ACTS - {"Discovery"}, MaxDepth=10)
         n = 200 if q else 4000
-        h, r = ctx.gen("random_%s" % ("enc" if sec else "none"), "GenSession", c, simulate="num=%d" % n)
+        h, r = ctx.gen("random_%s" % ("enc" if sec else "none"), "GenSession", c, simulate="num=%d" % max(20, n // 50), workers=1)
         gens.append(to_cases(take(h, n, ctx.seed), c, "random_%s" % ("enc" if sec else "none")))
 
     def nontrivial(c):
